@@ -2,6 +2,8 @@
 """dev helper: seedsave.py <log> : stores confirmed seeds from /tmp/seed/out into /verif/seeded/<ID>-<N>/"""
 import sys, json, os, re, shutil
 log = open(sys.argv[1]).read()
+ROOT = sys.argv[2] if len(sys.argv) > 2 else '/tmp/seed'
+SUFFIX = sys.argv[3] if len(sys.argv) > 3 else ''
 blocks = re.split(r'^##### ', log, flags=re.M)[1:]
 cur_id = None
 for b in blocks:
@@ -20,17 +22,20 @@ for b in blocks:
             end = idxs[k+1] if k+1 < len(idxs) else len(lines)
             groups.append((head, k+1, lines[i:end]))
     for pid, n, ls in groups:
-        src = f'/tmp/seed/out/{pid}'
+        src = f'{ROOT}/out/{pid}'
         if not os.path.exists(f'{src}/patch{n}.diff'): continue
         confirm = [l for l in ls if l.startswith('CONFIRM')]
         ok = (any('114 passed 0 failed' in l for l in confirm) and any('demo fails with change (ok)' in l for l in confirm)
               and any('demo passes without change (ok)' in l for l in confirm))
         detected = sorted(set(re.findall(r'VIOLATION property=(C\d+)', '\n'.join(ls))))
         sigs = sorted(set(re.findall(r'\[([a-z0-9_\-]+)\]', '\n'.join(l for l in ls if ' / ' in l))))
-        dst = f'/verif/seeded/{pid}-{n}'
+        dst = f'/verif/seeded/{pid}-{SUFFIX}{n}'
         os.makedirs(dst, exist_ok=True)
         shutil.copy(f'{src}/patch{n}.diff', f'{dst}/patch.diff')
         shutil.copy(f'{src}/demo{n}.rs', f'{dst}/demo.rs')
+        prev = None
+        if retest and os.path.exists(f'{dst}/meta.json'):
+            prev = json.load(open(f'{dst}/meta.json')).get('checks_run')
         meta = {}
         try: meta = json.load(open(f'{src}/meta{n}.json'))
         except Exception as e: meta = {'note': 'agent meta unreadable: %s' % e}
@@ -40,6 +45,7 @@ for b in blocks:
             'lines': confirm, 'all_confirmed': ok}
         if retest:
             meta['first_version_missed'] = True
+            if prev: meta['first_version_run'] = prev
         meta['checks_run'] = {'command': f'git -C /repo apply patch.diff; ./verif.sh {pid} quick; git -C /repo checkout -- .',
                               'violations_reported_for': detected, 'signatures': sigs, 'detected': pid in detected, 'detected_by_other_property_check': [d for d in detected if d != pid]}
         json.dump(meta, open(f'{dst}/meta.json','w'), indent=1)
